@@ -2,4 +2,4 @@
 # usage: robust_seed.sh <seed> <id>:<prop> ...   - run each seeded change's quick check with another
 # VERIF_SEED (development aid: is the detection robust against the choice of seeds?). Prints one line each.
 S=$1; shift
-printf "%s\n" "$@" | xargs -P 3 -I{} bash -c 'x={}; id=${x%%:*}; p=${x##*:}; out=$(VERIF_SEED='$S' /verif/tools/run_on_seeded.sh $id $p 2>&1); rc=$(echo "$out" | grep -o "exit [0-9]*$" | tail -1); echo "$id $p seed='$S' $rc $(echo "$out" | grep -c "^VIOLATION")"'
+printf "%s\n" "$@" | xargs -P 2 -I{} bash -c 'x={}; id=${x%%:*}; p=${x##*:}; out=$(VERIF_SEED='$S' /verif/tools/run_on_seeded.sh $id $p 2>&1); rc=$(echo "$out" | grep -o "exit [0-9]*$" | tail -1); echo "$id $p seed='$S' $rc $(echo "$out" | grep -c "^VIOLATION")"'
